@@ -366,6 +366,13 @@ def cross_build(c, base_exe, other_exe, other_name, suites=CROSS_SUITES):
                 c.known_hits.setdefault(sig, known[0]["text"])
             else:
                 c.violations.append((sig, path, f"{diff['a']} vs {diff['b']}"))
+        # disk: the pair has been compared (and the failing case extracted); the other build's transcript goes now,
+        # the base transcript at the end of the check
+        try:
+            if os.path.getsize(tb) > 50_000_000:
+                os.remove(tb)
+        except OSError:
+            pass
     c.coverage["programs"] += tot_cases
     c.coverage["disagreements_checked"] += tot_lines
     c.coverage.setdefault("cross_build", {})[other_name] = {"cases": tot_cases, "lines_compared": tot_lines}
